@@ -18,7 +18,7 @@ def nontrivial(b):
 
 def run(tier, seed):
     cyc = 3 if tier == "thorough" else 2
-    chains = CHAINS if tier == "thorough" else ["tsRotateBack", "snRotate"]
+    chains = CHAINS if tier == "thorough" else ["tsRotateBack", "snRotate", "tsOverlap"]   # tsOverlap: {1} -> {1,2} -> {2}, old key kept at the first hop
     mcs = [("MC_Rollback", "MC_Rollback_check.cfg", {"ChainId": json.dumps(c), "ShipMode": json.dumps("any"),
             "MaxCycles": cyc if c != "tsOverlap" else 2, "V": 3}, f"c14-{c}") for c in chains]
     gens = []
